@@ -136,35 +136,57 @@ def decoder_tables(w):
     for bb, t in _calls(b, r"CheckedHrpstring::<'s>::new$"):
         full = getattr(t.callee, "full", None) or ""
         news.append((bb, "bech32m" if "Bech32m" in full else "bech32"))
-    hrp = {}
-    for bb, t in _calls(b, r"PartialEq for str>::eq$"):
-        lit = defuse.show(du.origin(t.args[1])).strip("&*'")
+    # HRP tests: string comparisons in from_str itself, or in a private helper it hands the HRP to
+    # (`fn sapling_hrp_network(hrp: &str) -> Option<NetworkType>`); each belongs to the checksum group
+    # (CheckedHrpstring::new::<Ck>) that dominates its site in from_str
+    tests = []          # (site block in from_str, literal, net)
+
+    def eq_tests(body, site_of):
+        d2 = defuse.DefUse(body)
+        for bb, t in _calls(body, r"PartialEq for str>::eq$"):
+            lit = defuse.show(d2.origin(t.args[1])).strip("&*'")
+            res = S.after_call(body, bb, S.B(True), stop_at=lambda b2, t2: t2.callee.indirect is None and
+                               re.search(r"PartialEq for str>::eq$", t2.callee.target_p()) is not None)
+            net = None
+            for _b2, a in (res.aggs if res else []):
+                if a.rv.agg[1].endswith("consensus::NetworkType") and net is None:
+                    net = a.rv.agg[2]
+            tests.append((site_of(bb), lit, net))
+    eq_tests(b, lambda bb: bb)
+    for cb, t in b.calls():
+        if b.blocks[cb].cleanup or t.callee.indirect is not None:
+            continue
+        g = w.fns.get(t.callee.target_id())
+        if g is not None and g.body is not None and g.crate.name == "zcash_address" and not g.is_closure() and \
+                g.id != f[0].id and _calls(g.body, r"PartialEq for str>::eq$") and "consensus::NetworkType" in (g.output or ""):
+            eq_tests(g.body, lambda _bb, cb=cb: cb)
+
+    def group_of(bb):
         grp = [(nb, ck) for nb, ck in news if b.dominates(nb, bb)]
         grp = sorted(grp, key=lambda x, _all=list(grp): len([1 for y in _all if b.dominates(y[0], x[0])]))
-        ck = grp[-1][1] if grp else None
-        res = S.after_call(b, bb, S.B(True), stop_at=lambda b2, t2: t2.callee.indirect is None and
-                           re.search(r"PartialEq for str>::eq$", t2.callee.target_p()) is not None)
-        net = None
-        for _b2, a in (res.aggs if res else []):
-            if a.rv.agg[1].endswith("consensus::NetworkType") and net is None:
-                net = a.rv.agg[2]
-        hrp[lit] = (ck, net)
-    # the kind each checksum group builds: AddressKind constructors dominated by one of its tests
+        return grp[-1][1] if grp else None
+    hrp = {lit: (group_of(site), net) for site, lit, net in tests}
+    # the kind each checksum group builds: AddressKind constructors (a constructor handed to a combinator, or
+    # an aggregate) dominated by one of its tests
     kind_of = {}
-    eqs = {bb: hrp_ck for bb, hrp_ck in
-           [(bb, [ck for nb, ck in sorted([(nb, ck) for nb, ck in news if b.dominates(nb, bb)],
-                                          key=lambda x: len([1 for y in news if b.dominates(y[0], x[0])]))][-1:])
-            for bb, _t in _calls(b, r"PartialEq for str>::eq$")] if hrp_ck}
+    sites = {site: group_of(site) for site, _l, _n in tests if group_of(site)}
     for mb, blk in enumerate(b.blocks):
-        tt = blk.term
-        if blk.cleanup or tt.kind != "call":
+        if blk.cleanup:
             continue
-        for a in tt.args:
-            o = du.origin(a)
-            if o[0] == "fn" and o[1] and "AddressKind::" in o[1]:
-                cks = {ck[0] for eb, ck in eqs.items() if b.dominates(eb, mb)}
-                for ck in cks:
-                    kind_of.setdefault(ck, set()).add(o[1].rsplit("::", 1)[-1])
+        kinds = []
+        tt = blk.term
+        if tt.kind == "call":
+            for a in tt.args:
+                o = du.origin(a)
+                if o[0] == "fn" and o[1] and "AddressKind::" in o[1]:
+                    kinds.append(o[1].rsplit("::", 1)[-1])
+        for st in blk.stmts:
+            if st.kind == "=" and st.rv.kind == "agg" and st.rv.agg[0] == "adt" and st.rv.agg[1].endswith("::AddressKind"):
+                kinds.append(st.rv.agg[2])
+        for k in kinds:
+            for site, ck in sites.items():
+                if b.dominates(site, mb):
+                    kind_of.setdefault(ck, set()).add(k)
     kind_of = {k: sorted(v) for k, v in kind_of.items()}
     hrp = {k: (ck, net, (kind_of.get(ck) or [None])[0] if len(kind_of.get(ck) or []) == 1 else None)
            for k, (ck, net) in hrp.items()}
@@ -755,12 +777,13 @@ def rule_zip316(chk, w):
                      inv[0][1].span.loc())
     else:
         chk.fail("ZIP316", "parse_items/jumble/missing", "f4jumble_inv_mut is not applied exactly once")
-    eq = _calls(b, r"PartialEq<\[U; N\]> for &\[T\]>::eq$|PartialEq.*::eq$")
+    eq = _calls(b, r"PartialEq.*::(eq|ne)$")
     okp = False
     for bb, t in eq:
         a = [defuse.show(du.origin(x)) for x in t.args]
-        if "split_at(" in a[0] and "Sub 16" in a[0]:
-            res = S.after_call(b, bb, S.B(False))
+        if any("split_at(" in x and "Sub 16" in x for x in a):
+            # the mismatch outcome: `==` false, or `!=` true
+            res = S.after_call(b, bb, S.B(t.callee.target_p().endswith("::ne")))
             okp = res is not None and {rv for _b2, rv in res.returns} <= {"variant:Err"} and not (rr & res.blocks)
             # the expected padding is the HRP followed by zeros
             cps = _calls(b, r"::copy_from_slice$")
@@ -964,7 +987,10 @@ def rule_pf(chk, w, g):
     sites, parent, reached = panics.reachable_sites(w, ents, scope)
     chk.analysed.update({"functions_reachable_from_decoders": len(reached),
                          "class_B_sites_inventoried_not_armed": len([1 for _f, s, _k in sites if s["cls"] == "B"])})
+    import pf_stable
+    pf_stable.extend(REVIEWED)
     for f, s, key in sites:
+        key = panics.resolve_key(REVIEWED, key, s)
         if s["cls"] != "A":
             continue
         loc = s["span"].loc()
